@@ -29,7 +29,9 @@ CLAIMED['C10'] = dict(text='Krpc.tla defines the space of buildable messages as 
              ref='DESIGN.md section 5 C10', technique='TLA+ Krpc module as wire-format oracle: TLC enumeration of the message space + TLC validation of observed dictionaries / round trips')
 CLAIMED['C05'] = dict(text='The structured neighbourhood of valid KRPC messages is a TLA+ state space (MC_KrpcShapes: base message x field path x deviation, pairs in the thorough tier); TLC enumerates it, the harness serialises every shape with its own encoder and feeds it - with truncations and byte mutations - to the decoder, to live server and client nodes (unsolicited and as the reply to their own in-flight requests) and, for error replies, to real API callers; TLC judges the recorded liveness observations (no panic, node still answers a ping, calls still complete).',
              ref='DESIGN.md section 5 C05', technique='TLA+ shape space enumerated by TLC, replayed on decoder / live nodes / API callers; liveness observations judged by TLC')
-NOTE = {'C10': 'Trusted base: TLC; the harness bencode/KRPC codec (independent of serde_bencode); the H3 WireMessage mirror of the crate-private Message.', 'C05': 'Trusted base: TLC; catch_unwind / thread-death detection in the simulator; the shape space is the bounded neighbourhood stated in MC_KrpcShapes plus seeded random mutations - not all byte strings up to the MTU.', 'C16': 'Trusted base: TLC; the lock-step simulator (production actor::run thread); fake peers signing authentic items; arrival order read from the simulator datagram log.', 'C11': RT_NOTE, 'C12': RT_NOTE, 'C19': 'Trusted base: TLC, CommunityModules Bitwise; the harness char->code point conversion. The 2^28 sweep is a Rust comparison against a reference that TLC validates on sampled vectors, not a TLC verdict.', 'C03': SERVER_NOTE, 'C04': SERVER_NOTE, 'C15': SERVER_NOTE + ' CRC32C token forgery by linearity is out of scope (design matter).'}
+CLAIMED['C09'] = dict(text='Sock.tla models the in-flight table and the attribution rule; TLC checks OnlyAddressee, SpoofIsStutter, GenuineStillAccepted and AtMostOnce for every possible incoming (tid, address) in every reachable state with an adversary that knows the sequential ids, and enumerates the injection plans. Each plan runs on a real client against fake peers; SockTrace rebuilds the model in-flight table from the observed sends and judges the observed effect of every delivered response/error (in-flight table, query / put / table / vote / caller state via H4 snapshots) and the final API result against an injection-free run.',
+             ref='DESIGN.md section 5 C09', technique='TLA+ Sock module: TLC exhaustive MC + TLC-enumerated injection plans on the real node + TLC trace validation of snapshot deltas')
+NOTE = {'C09': 'Trusted base: TLC; the H4 snapshot projection; the settle-tick argument (state is a fixpoint of input-less ticks at a frozen instant). Replies to expired requests are only required to leave query/table state unchanged.', 'C10': 'Trusted base: TLC; the harness bencode/KRPC codec (independent of serde_bencode); the H3 WireMessage mirror of the crate-private Message.', 'C05': 'Trusted base: TLC; catch_unwind / thread-death detection in the simulator; the shape space is the bounded neighbourhood stated in MC_KrpcShapes plus seeded random mutations - not all byte strings up to the MTU.', 'C16': 'Trusted base: TLC; the lock-step simulator (production actor::run thread); fake peers signing authentic items; arrival order read from the simulator datagram log.', 'C11': RT_NOTE, 'C12': RT_NOTE, 'C19': 'Trusted base: TLC, CommunityModules Bitwise; the harness char->code point conversion. The 2^28 sweep is a Rust comparison against a reference that TLC validates on sampled vectors, not a TLC verdict.', 'C03': SERVER_NOTE, 'C04': SERVER_NOTE, 'C15': SERVER_NOTE + ' CRC32C token forgery by linearity is out of scope (design matter).'}
 NA_REASON = {}
 
 def main():
